@@ -133,6 +133,10 @@ def _parse_type(s):
         i = _match_back(s, "]", "[")
         n = s[i + 1:-1].strip()
         return Ty("arr", to=parse_type(s[:i]), n=(int(n) if n else None))
+    if s.endswith(")") and s[_match_back(s, ")", "("):].startswith("(lambda at "):
+        i = _match_back(s, ")", "(")
+        pre = s[:i].strip()
+        return Ty("rec", name=s[i:], const=("const" in pre.split()))
     if s.endswith(")"):
         i = _match_back(s, ")", "(")
         params = [parse_type(p) for p in _split_top(s[i + 1:-1]) if p != "void"]
@@ -367,12 +371,18 @@ class Translator:
             if "empty" in self.ast.R[brid]:
                 continue
             fields.append(("__base_" + self.record_cname(bt.name), bt, None))
+        lam = getattr(self, "lambda_fields", {}).get(canon)
+        k_unnamed = 0
         for c in node.get("inner", []):
             if c.get("kind") == "FieldDecl":
                 fd = self.ast.D.get(c["id"])
                 if fd is None:
                     raise ExtractionBreak("field without type: %s.%s" % (canon, c.get("name")))
-                fields.append((c["name"], parse_type(fd["type"]), c["id"]))
+                fname = c.get("name")
+                if not fname:
+                    fname = "__cap%d" % k_unnamed   # lambda capture
+                    k_unnamed += 1
+                fields.append((fname, parse_type(fd["type"]), c["id"]))
         texts = []
         for (fname, fty, _) in fields:
             texts.append(self.cdecl(self.lower(fty), fname) + ";")
@@ -496,6 +506,7 @@ class Translator:
         f.qname = info.get("qname", node.get("name"))
         f.src = (info.get("file"), int(info.get("line", 0)))
         self.cur = f
+        self.cur_captures = getattr(self, "lambda_by_callop", {}).get(did)
         self.tmpn = 0
         self.blockstack = []
         rets, ps = fn_ret_type(info["type"])
@@ -1122,6 +1133,9 @@ class Translator:
                 if ty.kind == "ref":
                     return deref(X("var", name, ty=self.lower(ty)))
                 return X("var", name, ty=ty)
+            cap = self.captured(rid)
+            if cap is not None:
+                return cap
             return self.global_var(rd)
         if rk == "EnumConstantDecl":
             return X("lit", str(self.ast.C[rid]), ty=Ty("builtin", name="int"))
@@ -1133,6 +1147,19 @@ class Translator:
         if rk == "BindingDecl":
             raise ExtractionBreak("structured binding")
         raise ExtractionBreak("DeclRefExpr to " + rk)
+
+    def captured(self, rid):
+        """access to a captured variable inside a lambda's call operator: self->__capI (dereferenced for by-reference captures;
+        the captured variable may itself be a reference, whose referent the capture field points to)"""
+        caps = getattr(self, "cur_captures", None)
+        if not caps:
+            return None
+        for (fname, fty, var, _) in caps:
+            if var == rid:
+                self.rule("captured-variable access")
+                m = X("mem", deref(X("var", "self", ty=self.this_ty)), fname, ty=self.lower(fty))
+                return deref(m) if fty.kind == "ref" else m
+        return None
 
     def global_var(self, rd):
         rid = rd["id"]
@@ -1483,6 +1510,58 @@ class Translator:
             return X("cast", self.ctype(ty), X("lit", "0"), ty=ty)
         raise ExtractionBreak("scalar init list")
 
+    # lambdas ------------------------------------------------------------
+    def e_LambdaExpr(self, e):
+        """closure object: a struct with one field per capture (by-reference captures hold a pointer)"""
+        info = self.ast.E[e["id"]]
+        crid = info["closure"]
+        callop = info["callop"]
+        rinfo = self.ast.R.get(crid)
+        if rinfo is None:
+            raise ExtractionBreak("lambda closure record unknown")
+        canon = rinfo["name"]
+        inner = e.get("inner", [])
+        cls = inner[0]
+        fields = [c for c in cls.get("inner", []) if c.get("kind") == "FieldDecl"]
+        inits = [c for c in inner[1:] if c.get("kind") != "CompoundStmt"]
+        if len(inits) != len(fields):
+            raise ExtractionBreak("lambda: %d captures but %d initialisers" % (len(fields), len(inits)))
+        # name the capture fields and remember which variable each one captures
+        self.lambda_info = getattr(self, "lambda_info", {})
+        caps = []
+        for i, (fd, init) in enumerate(zip(fields, inits)):
+            fname = "__cap%d" % i
+            fty = parse_type(self.ast.D[fd["id"]]["type"])
+            tgt = init
+            while tgt.get("kind") in ("ImplicitCastExpr", "ParenExpr", "CXXConstructExpr", "MaterializeTemporaryExpr", "ExprWithCleanups") and tgt.get("inner"):
+                if tgt["kind"] == "CXXConstructExpr" and len(tgt["inner"]) != 1:
+                    break
+                tgt = tgt["inner"][0]
+            var = tgt["referencedDecl"]["id"] if tgt.get("kind") == "DeclRefExpr" else ("this" if tgt.get("kind") == "CXXThisExpr" else None)
+            caps.append((fname, fty, var, fd["id"]))
+        self.lambda_info[crid] = caps
+        self.lambda_fields = getattr(self, "lambda_fields", {})
+        self.lambda_fields[canon] = [(fn, ft) for (fn, ft, _, _) in caps]
+        self.lambda_by_callop = getattr(self, "lambda_by_callop", {})
+        self.lambda_by_callop[callop] = caps
+        if canon not in self.rec_names:
+            self.lambda_count = getattr(self, "lambda_count", {})
+            k = self.lambda_count.get(self.cur.cname, 0) + 1
+            self.lambda_count[self.cur.cname] = k
+            self.rec_alias[canon] = "%s__lambda%d" % (self.cur.cname, k)   # stable under line shifts
+        cn = self.need_record(canon)
+        ty = Ty("rec", name=canon)
+        r = X("var", "__lam", ty=ty)
+        st = [X("decl", ty, "__lam", None)]
+        for (fname, fty, var, _), init in zip(caps, inits):
+            tgtf = X("mem", r, fname, ty=self.lower(fty))
+            if fty.kind == "ref":
+                st.append(X("expr", X("assign", "=", tgtf, self.bind_ref(init))))
+            else:
+                st += self.init_object(tgtf, fty, init)
+        self.rule("lambda->closure struct")
+        return X("sexpr", st, r, ty=ty)
+
     # calls --------------------------------------------------------------
     def callee_decl(self, ce):
         """function decl id referenced by call expression's callee"""
@@ -1544,9 +1623,9 @@ class Translator:
         m = self.intercept_call(fid, e, inner[1:], None)
         if m is not None:
             return m
+        args = self.call_args(fid, inner[1:])
         fn = self.request_callee(fid)
         self.cur.calls[fn] = True
-        args = self.call_args(fid, inner[1:])
         return self.finish_call(fid, X("call", fn, args), e)
 
     def indirect_call(self, e):
